@@ -77,10 +77,10 @@ pub enum AltKind {
 }
 
 /// Render `shape` with the k-th Seq/Tuple node (pre-order) encoded per `alt`.
-pub fn render_alt(shape: &Shape, k: usize, alt: AltKind, wrong: &Value) -> Option<Value> {
+pub fn render_alt(shape: &Shape, k: usize, alt: AltKind, wrong: &Value, variant: usize) -> Option<Value> {
     let mut counter = 0usize;
     let mut applied = false;
-    let v = render(shape, k, alt, wrong, &mut counter, &mut applied);
+    let v = render(shape, k, alt, wrong, variant, &mut counter, &mut applied);
     if applied {
         Some(v)
     } else {
@@ -88,13 +88,31 @@ pub fn render_alt(shape: &Shape, k: usize, alt: AltKind, wrong: &Value) -> Optio
     }
 }
 
-fn render(s: &Shape, k: usize, alt: AltKind, wrong: &Value, counter: &mut usize, applied: &mut bool) -> Value {
-    let mut kids = |xs: &Vec<Shape>, counter: &mut usize, applied: &mut bool| -> Vec<Value> { xs.iter().map(|x| render(x, k, alt, wrong, counter, applied)).collect() };
+/// A wrong-kind stand-in that resembles the content it replaces: the items as
+/// a byte vector (when they are octets) or as a string (when they are chars),
+/// or an empty byte vector / string.
+fn lookalike(items: &[Value], variant: usize) -> Option<Value> {
+    match variant {
+        1 => {
+            let octets: Option<Vec<u8>> = items.iter().map(|v| v.as_u64().filter(|n| *n < 256).map(|n| n as u8)).collect();
+            Some(Value::bytes(octets.unwrap_or_else(|| vec![items.len() as u8; items.len()])))
+        }
+        2 => Some(Value::bytes(Vec::<u8>::new())),
+        3 => {
+            let chars: Option<String> = items.iter().map(|v| v.as_char()).collect();
+            Some(Value::string(chars.unwrap_or_default()))
+        }
+        _ => None,
+    }
+}
+
+fn render(s: &Shape, k: usize, alt: AltKind, wrong: &Value, variant: usize, counter: &mut usize, applied: &mut bool) -> Value {
+    let mut kids = |xs: &Vec<Shape>, counter: &mut usize, applied: &mut bool| -> Vec<Value> { xs.iter().map(|x| render(x, k, alt, wrong, variant, counter, applied)).collect() };
     match s {
         Shape::Seq(xs) | Shape::Tuple(xs) => {
             let me = *counter;
             *counter += 1;
-            let items = kids(xs, counter, applied);
+            let mut items = kids(xs, counter, applied);
             let is_seq = matches!(s, Shape::Seq(_));
             if me == k {
                 *applied = true;
@@ -110,11 +128,19 @@ fn render(s: &Shape, k: usize, alt: AltKind, wrong: &Value, counter: &mut usize,
                         if items.is_empty() {
                             // an improper "empty list" is just the atom: wrong kind
                             wrong.clone()
+                        } else if variant == 1 && items.len() >= 2 && !matches!(items[items.len() - 1], Value::Null | Value::Cons(_)) {
+                            // the last item itself as the dotted tail: (1 . 2), (1 2 . 3)
+                            let last = items.pop().unwrap();
+                            Value::append(items, last)
+                        } else if variant == 2 {
+                            Value::append(items, Value::bytes(vec![0u8]))
+                        } else if variant == 3 {
+                            Value::append(items, Value::vector(Vec::<Value>::new()))
                         } else {
                             Value::append(items, wrong.clone())
                         }
                     }
-                    AltKind::WrongKindReject => wrong.clone(),
+                    AltKind::WrongKindReject => lookalike(&items, variant).unwrap_or_else(|| wrong.clone()),
                 }
             } else if is_seq {
                 Value::list(items)
@@ -124,16 +150,16 @@ fn render(s: &Shape, k: usize, alt: AltKind, wrong: &Value, counter: &mut usize,
         }
         Shape::Atom(v) => v.clone(),
         Shape::Unit | Shape::None_ => Value::Null,
-        Shape::Alist(kvs) => Value::list(kvs.iter().map(|(a, b)| Value::cons(render(a, k, alt, wrong, counter, applied), render(b, k, alt, wrong, counter, applied))).collect::<Vec<_>>()),
-        Shape::Struct(fs) => Value::list(fs.iter().map(|(n, v)| Value::cons(Value::symbol(*n), render(v, k, alt, wrong, counter, applied))).collect::<Vec<_>>()),
-        Shape::Some_(x) => Value::list(vec![render(x, k, alt, wrong, counter, applied)]),
+        Shape::Alist(kvs) => Value::list(kvs.iter().map(|(a, b)| Value::cons(render(a, k, alt, wrong, variant, counter, applied), render(b, k, alt, wrong, variant, counter, applied))).collect::<Vec<_>>()),
+        Shape::Struct(fs) => Value::list(fs.iter().map(|(n, v)| Value::cons(Value::symbol(*n), render(v, k, alt, wrong, variant, counter, applied))).collect::<Vec<_>>()),
+        Shape::Some_(x) => Value::list(vec![render(x, k, alt, wrong, variant, counter, applied)]),
         Shape::UnitVariant(n) => Value::symbol(*n),
-        Shape::NewtypeVariant(n, p) => Value::cons(Value::symbol(*n), render(p, k, alt, wrong, counter, applied)),
+        Shape::NewtypeVariant(n, p) => Value::cons(Value::symbol(*n), render(p, k, alt, wrong, variant, counter, applied)),
         Shape::TupleVariant(n, xs) => {
             let items = kids(xs, counter, applied);
             Value::cons(Value::symbol(*n), Value::list(items))
         }
-        Shape::StructVariant(n, fs) => Value::cons(Value::symbol(*n), Value::list(fs.iter().map(|(f, v)| Value::cons(Value::symbol(*f), render(v, k, alt, wrong, counter, applied))).collect::<Vec<_>>())),
+        Shape::StructVariant(n, fs) => Value::cons(Value::symbol(*n), Value::list(fs.iter().map(|(f, v)| Value::cons(Value::symbol(*f), render(v, k, alt, wrong, variant, counter, applied))).collect::<Vec<_>>())),
     }
 }
 
